@@ -233,3 +233,8 @@ def b_native(B):
     for ns in lens[:1] if B.tier == "quick" else lens[::4]:
         bad = native_lf(rng, ns, [12 * 777, 6000, 3000], version="NP2.1")
         B.case(("lf_np21", ns), not bad, detail=bad[:4], inputs={"ns": ns, "version": "NP2.1"})
+
+
+# ----------------------------------------------------------------------------- contracts of dependencies this property rests on (re-checked here)
+from pyvc.api import depends  # noqa: E402
+depends(PROPERTY, "C17", ["firstlast"])      # generator contract + nwin == count, used by the window-loop harnesses
